@@ -27,14 +27,14 @@ Section Top.
   Proof. intros Hg. induction l as [|x l IH]; intros H; simpl; [apply rl_refl|]. eapply rl_trans; [apply Hg | apply IH]. Qed.
   Lemma rl_wake : forall fuel w H, RL H (wake fuel w H).
   Proof.
-    induction fuel as [|f IH]; intros w H; unfold wake; fold wake; [apply rl_refl|].
-    destruct w as [c s g|q]; [|apply rl_same; reflexivity].
-    set (H1 := if c_alive (gcmd c H) then ucmd c (fun cm => set_ready (c_ready cm ++ [s]) cm) H else H).
-    assert (R1 : RL H H1) by (subst H1; destruct (c_alive (gcmd c H)); [lenkeep | apply rl_refl]).
-    assert (R2 : RL H (set_woken g H1)) by (eapply rl_trans; [exact R1 | apply rl_same; reflexivity]).
-    destruct (c_atomic (gcmd c (set_woken g H1))).
-    - eapply rl_trans; [exact R2|]. eapply rl_trans; [|apply IH]. lenkeep.
-    - eapply rl_trans; [exact R2|]. apply rl_same; reflexivity.
+    induction fuel as [|f IH]; intros w H; unfold wake; fold wake;
+      (destruct w as [c s g|q]; [|apply rl_same; reflexivity]);
+      set (H1 := if c_alive (gcmd c H) then ucmd c (fun cm => set_ready (c_ready cm ++ [s]) cm) H else H);
+      (assert (R1 : RL H H1) by (subst H1; destruct (c_alive (gcmd c H)); [lenkeep | apply rl_refl]));
+      (assert (R2 : RL H (set_woken g H1)) by (eapply rl_trans; [exact R1 | apply rl_same; reflexivity]));
+      destruct (c_atomic (gcmd c (set_woken g H1))) as [w'|]; try (eapply rl_trans; [exact R2|]; apply rl_same; reflexivity).
+    all: try exact R2.
+    eapply rl_trans; [exact R2|]. eapply rl_trans; [|apply IH]. lenkeep.
   Qed.
   Lemma rl_wake_cell ch H : RL H (wake_cell ch H).
   Proof. unfold wake_cell. destruct (ch_wk (gch ch H)); [|apply rl_refl]. eapply rl_trans; [|apply rl_wake]. apply rl_same; reflexivity. Qed.
